@@ -117,11 +117,11 @@ def plan(pid, tier, seed):
         out += r.sample(rest, min(len(rest), cap - len(out)))
         return out
 
-    def crash_runs(n, calls):
+    def crash_runs(n, calls, small_cache=0.3):
         def g():
             out = []
             for k in range(n):
-                cfg = gen.cfg_choices(rng)
+                cfg = gen.cfg_choices(rng, rng.random() < small_cache)
                 if rng.random() < 0.3:
                     cfg = {}
                 st = gen.flush_history(rng, calls, cfg) if rng.random() < 0.5 else gen.purge_history(rng, calls, cfg)
@@ -235,6 +235,9 @@ def plan(pid, tier, seed):
                 out.append(dict(mode="jitter", tag="cache", steps=gen.cache_history(rng, 25 if q else 60, cfg, readers=True)))
             return out
         P["gen"].append(g)
+        # reads on a store recovered from a crash image, under small cache limits
+        mc("MC_Conc", "MC_C07crash_q.cfg" if q else "MC_C07crash_t.cfg", 400 if q else 4000, add_obs, pick=pick_recovering)
+        crash_runs(12 if q else 150, 12 if q else 30, small_cache=1.0)
         P["need"] = dict(obs=1000, reads=200)
     elif pid == "C15":
         def post(steps, r):
